@@ -14,6 +14,8 @@ void sched_begin(int nprefix, const int* prefT, const int* prefA, long sec, long
 void sched_event(const char* fmt, ...);
 // the next pthread_create produces the simulated thread with this id
 void sched_set_next_tid(int tid);
+// pthread_create may fail (EAGAIN) this many times; call after sched_begin
+void sched_set_create_failures(int n);
 // thread 0 has finished its program; never returns (the run ends with a verdict line and _exit)
 void sched_main_done();
 // a contract violation noticed by the scenario interpreter itself (critical-section occupancy)
